@@ -28,6 +28,7 @@ CONSTANTS
     Names,          \* schema names used by get_versioned_schema / create in call histories
     KeyWithVersion, \* TRUE: expanded-schema cache keyed by name + version (the code as it is)
                     \* FALSE: keyed by name only (the behaviour before the fix; negative config)
+    Ops,            \* the kinds of call a history may contain
     MaxCalls,       \* length bound of a call history
     Mode            \* "mc" exhaustive histories | "sim" random histories with emission |
                     \* "all" exhaustive histories of exactly MaxCalls calls with emission |
@@ -199,8 +200,12 @@ Init ==
 Next ==
     /\ Mode \in {"mc", "sim", "all"}
     /\ ncalls < target
-    /\ (Validate \/ Validate2 \/ Validate3 \/ GetVersioned \/ GetVersioned2 \/ Export
-        \/ ModValidate \/ ModExport \/ ModCreate)
+    /\ \/ "validate" \in Ops /\ (Validate \/ Validate2 \/ Validate3)
+       \/ "get_versioned" \in Ops /\ (GetVersioned \/ GetVersioned2)
+       \/ "export" \in Ops /\ Export
+       \/ "mod_validate" \in Ops /\ ModValidate
+       \/ "mod_export" \in Ops /\ ModExport
+       \/ "mod_create" \in Ops /\ ModCreate
 
 Spec == Init /\ [][Next]_vars
 
